@@ -25,7 +25,10 @@ var docForms = []string{"none", "line", "two-lines", "block", "detached", "with-
 var kinds = []string{"type-ungrouped", "type-grouped", "field", "field-multi", "const-grouped", "const-ungrouped", "var-ungrouped",
 	"field-multiline-type", "type-grouped-multiline", "var-grouped-multiline-value", "type-ungrouped-multiline"}
 
+var fileForms = []string{"plain", "CRLF line endings", "licence header, build constraint and an import before the declarations", "a second file of the package has comments on the same line numbers"}
+
 type Layout struct {
+	File  int   `json:"file_form,omitempty"`
 	Kind  int   `json:"kind"`
 	Docs  []int `json:"doc_form_per_declaration"`
 	Trail []int `json:"trailing_comment_per_declaration"`
@@ -40,7 +43,11 @@ func (l Layout) String() string {
 		}
 		parts = append(parts, docForms[l.Docs[i]]+t)
 	}
-	return kinds[l.Kind] + "[" + strings.Join(parts, " | ") + "]"
+	f := ""
+	if l.File != 0 {
+		f = " in a file with " + fileForms[l.File]
+	}
+	return kinds[l.Kind] + "[" + strings.Join(parts, " | ") + "]" + f
 }
 
 type expect struct {
@@ -88,7 +95,13 @@ func (l Layout) render(pkg string) (string, []expect) {
 	var b strings.Builder
 	var exp []expect
 	kind := kinds[l.Kind]
+	if l.File == 2 {
+		b.WriteString("// Copyright header of the file.\n// Second header line.\n\n//go:build !ignore\n\n// Package " + pkg + " has a package doc.\n")
+	}
 	b.WriteString("package " + pkg + "\n\n")
+	if l.File == 2 {
+		b.WriteString("import \"fmt\" // trailing comment of the import\n\n// doc of the import user\nvar _ = fmt.Sprint // trailing comment of the import user\n\n")
+	}
 	indent := ""
 	switch kind {
 	case "type-grouped", "type-grouped-multiline":
@@ -147,7 +160,21 @@ func (l Layout) render(pkg string) (string, []expect) {
 	case "field", "field-multi", "field-multiline-type":
 		b.WriteString("}\n")
 	}
+	if l.File == 1 {
+		return strings.ReplaceAll(b.String(), "\n", "\r\n"), exp
+	}
 	return b.String(), exp
+}
+
+// decoyFile: another file of the same package (sorting before x.go) with a doc comment, a declaration
+// and a trailing comment on every line number the layout can use.
+func decoyFile(pkg string) string {
+	var b strings.Builder
+	b.WriteString("package " + pkg + "\n")
+	for i := 0; i < 30; i++ {
+		fmt.Fprintf(&b, "// decoy doc %d\nvar Decoy%d = %d // decoy trail %d\n/* decoy block %d */ var DecoyB%d = %d // decoy trail b%d\n", i, i, i, i, i, i, i, i)
+	}
+	return b.String()
 }
 
 type Case struct {
@@ -166,6 +193,9 @@ func checkLayouts(c *core.Ctx, ls []Layout) {
 		src, e := l.render(name)
 		exps[i] = e
 		t["p/"+name+"/x.go"] = src
+		if l.File == 3 {
+			t["p/"+name+"/a.go"] = decoyFile(name)
+		}
 	}
 	if err := pipe.WriteTree(dir, t); err != nil {
 		c.Internal("%v", err)
@@ -404,6 +434,20 @@ func run(c *core.Ctx) {
 		gen(2, 4)
 		c.Bound("consecutive_declarations_thorough_kinds_type_ungrouped_and_field", 4)
 	}
+	// the other file forms for every layout of 2 consecutive declarations
+	c.Bound("file_forms", fileForms)
+	for f := 1; f < len(fileForms); f++ {
+		for k := range kinds {
+			core.Explore(c, core.ExploreOpts{Bound: -1}, func(ch *core.Chooser, _ bool) {
+				l := Layout{Kind: k, File: f}
+				for i := 0; i < 2; i++ {
+					l.Docs = append(l.Docs, ch.Choose(len(docForms)))
+					l.Trail = append(l.Trail, ch.Choose(2))
+				}
+				all = append(all, l)
+			})
+		}
+	}
 	c.Bound("layouts", len(all))
 	const batch = 500
 	for i := 0; i < len(all); i += batch {
@@ -419,7 +463,7 @@ func run(c *core.Ctx) {
 	c.Sample(Layout{Kind: 2, Docs: []int{1, 0, 5}, Trail: []int{1, 0, 1}}.String())
 
 	// tag extraction
-	lineLen := c.Pick(5, 6)
+	lineLen := c.Pick(5, 7)
 	c.Bound("tag_line_alphabet", tagAlphabet)
 	c.Bound("single_line_max_len", lineLen)
 	c.Bound("line_pairs_max_len", 3)
@@ -467,7 +511,7 @@ func replay(c *core.Ctx, raw json.RawMessage) {
 func init() {
 	core.Register(&core.Prop{
 		ID: "C12", Level: "model_checking", Run: run, Replay: replay,
-		Rule: "layouts: every assignment of (doc form in {none, line, two lines, block, detached, with tag lines, multi-line block with a tag line, two blocks on one line, block followed by a line comment} x trailing comment yes/no) to 3 (thorough: 4 for two kinds) consecutive declarations, for 11 declaration kinds (ungrouped/grouped types, struct fields, multi-name fields, grouped/ungrouped consts, vars, and multi-line declarations whose trailing comment sits on the closing line: fields of struct type, grouped/ungrouped struct types, grouped vars with multi-line values); one source file per layout loaded by the real loader; Doc/tags/Comment of every declared object vs the harness' own knowledge of what it wrote (asked twice, the first answer overwritten by the caller in between). Tag extraction: every single line <=5 (6) over an 8-symbol alphabet (also with custom markers), every pair of lines <=3. Non-trivial = layouts with at least one doc or trailing comment / inputs with at least one tag; states = distinct layout classes / (tags, other lines) counts",
+		Rule: "layouts: every assignment of (doc form in {none, line, two lines, block, detached, with tag lines, multi-line block with a tag line, two blocks on one line, block followed by a line comment} x trailing comment yes/no) to 3 (thorough: 4 for two kinds) consecutive declarations, for 11 declaration kinds (ungrouped/grouped types, struct fields, multi-name fields, grouped/ungrouped consts, vars, and multi-line declarations whose trailing comment sits on the closing line: fields of struct type, grouped/ungrouped struct types, grouped vars with multi-line values); one source file per layout loaded by the real loader, plus every layout of 2 declarations in 3 more file forms (CRLF line endings; licence header + build constraint + import before the declarations; a second file of the package with comments on the same line numbers); Doc/tags/Comment of every declared object vs the harness' own knowledge of what it wrote (asked twice, the first answer overwritten by the caller in between). Tag extraction: every single line <=5 (6) over an 8-symbol alphabet (also with custom markers), every pair of lines <=3. Non-trivial = layouts with at least one doc or trailing comment / inputs with at least one tag; states = distinct layout classes / (tags, other lines) counts",
 		Assumptions: []string{
 			"doc lines starting with 'go:' or with leading/trailing blanks are outside the alphabet",
 			"other (non-tag) lines are compared modulo surrounding spaces",
